@@ -20,7 +20,7 @@ EXPLAIN = "c12_explain"
 CASES_PER_FILE = 120
 CASE_FILE_BYTES = 120000
 CASE_TIMEOUT = 10
-TIERS = {"quick": {"n": 2000}, "thorough": {"n": 20000, "exhaustive": True}}
+TIERS = {"quick": {"n": 2600}, "thorough": {"n": 24000, "exhaustive": True}}
 RULE = ("BufferedSocket over a scripted socket: random byte streams over a 2-4 letter alphabet (delimiters recur and "
         "overlap), random and exhaustive compositions into deliveries (1-byte delivery included) with time-outs "
         "interleaved, recvsize 1-6 or large, maxsize around the delimiter position, call sequences of recv_until "
@@ -611,6 +611,23 @@ def gen_exhaustive_family(rng, tier):
         yield dict(base, net=cut_stream(stream, cuts))
 
 
+def gen_delim_family(rng, tier):
+    """One stream and one chunking under EVERY delimiter of length 1-2 over its alphabet (plus two of
+    length 3) x EVERY maxsize 0..len+1 x with/without delimiter."""
+    alpha = rng.choice([[97, 98], [13, 10]])
+    n = rng.randint(2, 4 if tier == "quick" else 6)
+    stream = rand_stream(rng, n, alpha)
+    cuts = add_timeouts(rng, rand_cuts(rng, n, rng.choice(["one", "small", "whole"])), rng.choice([0.0, 0.2]))
+    net = cut_stream(stream, cuts)
+    delims = [[a] for a in alpha] + [[a, b] for a in alpha for b in alpha] + [stream[:3], [alpha[0]] * 3]
+    rs = rng.choice([1, 2, 64])
+    for d in delims:
+        for m in range(0, n + 2):
+            w = rng.random() < 0.5
+            yield {"kind": "bs", "maxsize": 100, "recvsize": rs, "timeout": None, "net": net, "script": [],
+                   "ops": [["until", d, m, w], ["until", d, "unset", not w], ["close", None]], "retry": True}
+
+
 def gen_ns(rng, tier):
     wmax = rng.choice([5, 9, 10, 11, 99, 100, 999, 4096])
     nw = rng.randint(0, 4)
@@ -682,8 +699,15 @@ def generate(rng, tier, n):
             yield c
     while made < n:
         r = rng.random()
-        if r < 0.12:
+        if r < 0.08:
             for c in gen_exhaustive_family(rng, tier):
+                if made >= n:
+                    break
+                yield c
+                made += 1
+            continue
+        if r < 0.095:
+            for c in gen_delim_family(rng, tier):
                 if made >= n:
                     break
                 yield c
